@@ -715,7 +715,7 @@ func hslFunc() builtinFunc {
 			return nil, fmt.Errorf(`%w: "hsl" takes 1 to 4 num arguments`, ErrBadArguments)
 		}
 		hue := args[0].(*numVal).V
-		if hue < 0 || hue > 360 {
+		if !(hue >= 0 && hue <= 360) {
 			return nil, fmt.Errorf(`%w: the first argument ("hue") of the "hsl" function must be between 0 and 360`, ErrBadArguments)
 		}
 		saturation := 100.0
@@ -723,19 +723,19 @@ func hslFunc() builtinFunc {
 		alpha := 100.0
 		if len(args) > 1 {
 			saturation = args[1].(*numVal).V
-			if saturation < 0 || saturation > 100 {
+			if !(saturation >= 0 && saturation <= 100) {
 				return nil, fmt.Errorf(`%w: the second argument ("saturation") of the "hsl" function must be between 0 and 100`, ErrBadArguments)
 			}
 		}
 		if len(args) > 2 {
 			lightness = args[2].(*numVal).V
-			if lightness < 0 || lightness > 100 {
+			if !(lightness >= 0 && lightness <= 100) {
 				return nil, fmt.Errorf(`%w: the third argument ("lightness") of the "hsl" function must be between 0 and 100`, ErrBadArguments)
 			}
 		}
 		if len(args) > 3 {
 			alpha = args[3].(*numVal).V
-			if alpha < 0 || alpha > 100 {
+			if !(alpha >= 0 && alpha <= 100) {
 				return nil, fmt.Errorf(`%w: the fourth argument ("alpha") of the "hsl" function must be between 0 and 100`, ErrBadArguments)
 			}
 		}
@@ -911,7 +911,7 @@ func parseFontProps(arg *mapVal) (map[string]any, error) {
 				return nil, fmt.Errorf("%w: expected property %q of type %s, found num", ErrBadArguments, key, propType)
 			}
 			n := v.V
-			if (key == "size" || key == "weight") && n <= 0 {
+			if (key == "size" || key == "weight") && !(n > 0) {
 				return nil, fmt.Errorf(`%w: expected property %q to be greater than 0`, ErrBadArguments, key)
 			}
 			props[key] = v.V
